@@ -18,7 +18,6 @@ import (
 	"cmp"
 	"log/slog"
 	"net/http"
-	"strconv"
 	"time"
 )
 
@@ -70,19 +69,28 @@ func calculateCurrentAge(
 	h http.Header,
 	date, requestTime, responseTime time.Time,
 ) *Age {
-	ageVal := 0
-	if ageStr := h.Get("Age"); ageStr != "" {
-		ageVal, _ = strconv.Atoi(ageStr)
+	ageValue := time.Duration(0)
+	if v, ok := RawDeltaSeconds(h.Get("Age")).Value(); ok {
+		ageValue = v
 	}
 	apparentAge := max(responseTime.Sub(date), 0)
 	responseDelay := max(responseTime.Sub(requestTime), 0)
-	correctedAgeValue := time.Duration(ageVal)*time.Second + responseDelay
+	correctedAgeValue := addDuration(ageValue, responseDelay)
 	correctedInitialAge := max(apparentAge, correctedAgeValue)
 	residentTime := max(clock.Since(responseTime), 0)
 	return &Age{
-		Value:     correctedInitialAge + residentTime,
+		Value:     addDuration(correctedInitialAge, residentTime),
 		Timestamp: clock.Now(),
 	}
+}
+
+// addDuration adds two non-negative durations, saturating at the maximum
+// duration instead of wrapping around.
+func addDuration(a, b time.Duration) time.Duration {
+	if a > maxDuration-b {
+		return maxDuration
+	}
+	return a + b
 }
 
 const maxDuration = 1<<63 - 1
